@@ -485,6 +485,74 @@ def rule_core_forms(ctx, rule):
     return decided
 
 
+# ------------------------------------------------------------------------------------------------ what each core keyword is parsed as
+
+KEYWORD_FORMS = [
+    ("define", "(define d1 m1)", "Definition"), ("define/procedure", "(define (f1 p1) m1)", "Definition"),
+    ("lambda", "(lambda (p1) m1)", "Procedure"), ("if", "(if m1 m2 m3)", "Conditional"), ("quote", "(quote m1)", "Quote"),
+    ("quote-abbreviation", "'m1", "Quote"), ("quote-abbreviation/list", "'(m1 m2)", "Quote"), ("set!", "(set! d1 m1)", "Assignment"),
+    ("define-syntax", "(define-syntax k1 (syntax-rules () ((k1 p1) p1)))", "SyntaxDefinition"),
+    ("import", "(import (only (l1 l2) d1))", "ImportDeclaration"),
+    ("define-library", "(define-library (l1) (export d1 (rename d2 d3)) (begin (define d1 1) (define d2 2)))", "LibraryDefinition"),
+    ("call", "(f1 m1 m2)", "ProcedureCall"),
+]
+
+
+def _named(v, name, out, depth=14):
+    if depth < 0:
+        return
+    if isinstance(v, Enum):
+        if getattr(v, "name", None) == name:
+            out.append(v)
+        for x in v.fields:
+            _named(x, name, out, depth - 1)
+    elif isinstance(v, (list, tuple)):
+        for x in v:
+            _named(x, name, out, depth - 1)
+
+
+def rule_keywords(ctx, rule, only=None):
+    """every core keyword, given to the crate's own lexer and parser in one form each, comes out as the statement / expression it
+    denotes (a definition, a lambda expression, a conditional, a quotation — also written 'x —, an assignment, a syntax definition, an
+    import declaration, a library definition, a call); -> {keyword: True | False | None (not followed)}"""
+    from .ctx import where_of
+    fb = ctx.fb()
+    pc = fb.find("parser::parser::Parser::parse_current", required=False)
+    where = where_of(pc) if pc is not None and not getattr(pc, "missing", False) else None
+    out = {}
+    for kw, text, variant in KEYWORD_FORMS:
+        if only is not None and kw.split("/")[0] not in only:
+            continue
+        key = "keyword/%s" % kw
+        r = parse_statement(fb, text + " ")
+        if r[0] == "stuck":
+            ctx.undecided(rule, key, "cannot follow the parser on %r (%s)" % (text, r[1]), where)
+            out[kw] = None
+            continue
+        hits = []
+        if r[0] == "ok":
+            _named(r[1], variant, hits)
+        good = r[0] == "ok" and bool(hits)
+        if good and kw == "define-library":
+            ren = []
+            _named(r[1], "Rename", ren)
+            good = any(list(x.fields[:2]) == ["d2", "d3"] for x in ren)
+            if not good:
+                ctx.inst(rule, key, {"parsed_as": variant, "export_rename": [list(x.fields[:2]) for x in ren]})
+                ctx.oblige(False)
+                ctx.report(rule, key + "/export-rename", "(export (rename d2 d3)) is parsed as %s, expected the export specification Rename(internal d2, "
+                           "external d3)" % ([list(x.fields[:2]) for x in ren],), where)
+                out[kw] = False
+                continue
+        out[kw] = good
+        ctx.inst(rule, key, {"parsed_as": variant if good else (r[0] if r[0] != "ok" else "something else")})
+        ctx.oblige(good)
+        if not good:
+            ctx.report(rule, key, "%r is %s, expected a %s" % (text, ("rejected by the parser (%s)" % (r[1],)) if r[0] == "error" else
+                                                            "parsed as something that is not a %s" % variant, variant), where)
+    return out
+
+
 # ------------------------------------------------------------------------------------------------ calls whose operator is a literal
 
 LITERAL_OPERATOR_TEXTS = ["(5 m1)", '("s" m1)', "(#t m1)", "(#\\a m1)", "(1.5 m1 m2)", "(1/2)", "((lambda () (7 m1)))", "(if m1 (5 m2) m3)",
